@@ -6,7 +6,7 @@ use crate::rng::Rng;
 pub fn plain_size(rng: &mut Rng, big_pct: u64) -> usize {
     if rng.chance(big_pct, 100) {
         return match rng.below(10) {
-            0 => rng.pick(&[31743usize, 31744, 31745, 32767, 32768, 32769]),
+            0 => rng.pick(&[31743usize, 31744, 31745, 31746, 32767, 32768, 32769, 63488, 63489, 63490, 95232, 95235]),
             1 => rng.pick(&[65534usize, 65535, 65536, 65537]),
             2 => rng.pick(&[85195usize, 85196, 85197]),
             3 | 4 => rng.range(90_000, 400_000),
@@ -152,7 +152,7 @@ pub fn plaintext(rng: &mut Rng, total: usize) -> Vec<u8> {
 
 /// Chunk-size classes for input delivery (DESIGN section 1: 0, 1, 2, 3, small, >= 14, rest).
 pub fn chunk(rng: &mut Rng, left: usize) -> usize {
-    let c = match rng.below(10) {
+    let c = match rng.below(11) {
         0 => 0,
         1 => 1,
         2 => 2,
@@ -162,6 +162,7 @@ pub fn chunk(rng: &mut Rng, left: usize) -> usize {
         6 => rng.range(64, 1500),
         7 => left,
         8 => left / 2,
+        9 => rng.pick(&[4096usize, 31744, 31745, 32768, 65536]),
         _ => rng.range(0, left.max(1)),
     };
     c.min(left)
@@ -179,6 +180,7 @@ pub fn grant(rng: &mut Rng) -> i64 {
         6 => rng.range(258, 259) as i64,
         7 => rng.range(260, 1200) as i64,
         8 => rng.range(1200, 40000) as i64,
+        9 => rng.pick(&[256i64, 1024, 4096, 16384, 32767, 32768, 32769]),
         _ => -1,
     }
 }
@@ -229,7 +231,7 @@ pub fn stream_ops(rng: &mut Rng, n_in: usize, style: u64, flushes: &[i64]) -> Ve
     while ops.len() < max_ops {
         let c = chunk(rng, left);
         left -= c;
-        let o = match rng.below(9) {
+        let o = match rng.below(10) {
             0 => 0,
             1 => 1,
             2 => 3,
@@ -237,6 +239,8 @@ pub fn stream_ops(rng: &mut Rng, n_in: usize, style: u64, flushes: &[i64]) -> Ve
             4 => rng.range(30, 300),
             5 => rng.range(300, 5000),
             6 => rng.range(5000, 70000),
+            // grants that divide (or equal, or straddle) the 32 KiB window of the streaming wrappers
+            7 => rng.pick(&[256usize, 1024, 4096, 8192, 16384, 32767, 32768, 32769, 65536]),
             _ => rng.range(1, 1000),
         };
         let f = flushes[rng.usize_below(flushes.len())];
